@@ -95,7 +95,7 @@ class CHECK(core.Check):
                "urllib.parse (urlsplit, quote, unquote, quote_plus, unquote_plus) enters the model as the parameter `Std`, "
                "instantiated from the calls the implementation made; json.dumps output is an input of the model",
                "oracle uses CPython's parse_qsl / json.loads as the reference readers of query strings, form bodies and JSON",
-               "fix patch assumed applied: fixes/D30a (form values quoted separately)"]
+               "the model describes Requester.build as repaired by fixes/D30a (form values quoted separately; integrated in /repo)"]
     PARTIAL = ["C30_built_request_roundtrip_partial: Requester.build's assembly (request line + packHeader line per entry + body) "
                "is proved to parse back, given that the entries' lines are well-formed header lines that frame the body; that "
                "buildParts chooses such entries (Content-Length exactly for a non-empty body) and that urlsplit/quote/unquote/"
@@ -161,7 +161,7 @@ class CHECK(core.Check):
                "urllib.parse (urlsplit, quote, unquote, quote_plus, unquote_plus) enters the model as the parameter `Std`, "
                "instantiated from the calls the implementation made; json.dumps output is an input of the model",
                "oracle uses CPython's parse_qsl / json.loads as the reference readers of query strings, form bodies and JSON",
-               "fix patch assumed applied: fixes/D30a (form values quoted separately)"]
+               "the model describes Requester.build as repaired by fixes/D30a (form values quoted separately; integrated in /repo)"]
     PARTIAL = ["C30_request_roundtrip_partial: under stated laws of urlsplit/quote/unquote (hypotheses)",
                "whole-buffer parsing only (arrival in pieces is C29); multipart/form-data bodies (random boundary), "
                "server sent events, idna fallbacks, AttributiveGenerator overrides are outside the model"]
